@@ -494,4 +494,15 @@ theorem insertIdx_agrees (alloc : Alloc) (a : Al) (idx : Nat) (data : Elem) (hid
                 · cases h
           · cases h
 
+
+/-- `array_list_get_idx`: NULL (and no load at all) at and past the end; otherwise the slot `array + i * sizeof(void *)` is
+loaded and returned -/
+theorem getIdx_agrees (a : Al) (i : Nat) (arr ap m : Int) :
+    Translated.array_list_get_idx arr i a.length ap m =
+      .ok (if i ≥ a.length then { ret := 0, calls := [] } else { ret := m, calls := [("load8", [ap + (i : Int) * 8])] }) := by
+  unfold Translated.array_list_get_idx
+  by_cases h : i ≥ a.length
+  · rw [if_pos (by omega), if_pos h]; rfl
+  · rw [if_neg (by omega), if_neg h]; rfl
+
 end JsonC.TranslatedAl
